@@ -138,7 +138,7 @@ def gen(shard, rng, tier):
             steps = [{"cli": spec}, {"cli": {"argv": ["hex", "decode"], "stdin_from": 0}}]
             yield {"j": "encode", "profile": "dev" if n % 5 == 0 else "release", "x": {"cls": "length", "data": b.hex(), "channel": ch}, "steps": steps}
         if shard["part"] == 1:
-            for n in (65535, 65536, 100000, 1 << 20):
+            for n in (4095, 4097, 8191, 8192, 8193, 16383, 16384, 16385, 32767, 32768, 32769, 65535, 65536, 65537, 100000, 131071, 131072, 131073, 1 << 20):
                 b = rand_bytes(rng, n)
                 spec, ch = _cli(rng, "encode", b)
                 yield {"j": "encode", "profile": "release", "x": {"cls": "big", "data": b.hex(), "channel": ch}, "steps": [{"cli": spec}]}
